@@ -182,6 +182,11 @@ def run(ctx, proof):
             off = 10 ** rng.randint(5, 7)
             base = games.sa_closure_game(rng, n, "int", neg_singletons=False)
             return [off * games.popcount(i) + base[i] for i in range(2 ** n)], True
+        if klass == "sa" and 0.12 <= r < 0.22:
+            # very small values (exact multiples of 2^-30): observations are normalised, so nothing else may change
+            from fractions import Fraction
+            base = games.sa_closure_game(rng, n, "int", neg_singletons=False)
+            return [Fraction(x, 2 ** 30) for x in base], True
         if klass == "sa":
             if r < 0.6 or exact_only:
                 return games.sa_closure_game(rng, n, rng.choice(["int", "dyadic"]), neg_singletons=False), True
